@@ -132,7 +132,10 @@ func (ctx *baseTaskContext) addRequests(req *protoCommonV1.TaskRequest, physical
 // Complete completes the task with error(if execute failure).
 func (ctx *baseTaskContext) Complete(err error) {
 	ctx.mutex.Lock()
-	ctx.err = err
+	if err != nil {
+		// NOTE: must not wipe the error which a response has set already
+		ctx.err = err
+	}
 	ctx.mutex.Unlock()
 
 	ctx.tryClose()
